@@ -704,8 +704,19 @@ def rule_C(ctx, rid='C03.C'):
     absint.classref(ctx, CLS, fn_)
     proto = absint.instance(ctx, CLS, {}, fn_)
 
+    TCLS = absint.classref(ctx, CLS, fn_)
+
     def Rec(fields, _methods):
-        o = absint.instance(ctx, CLS, fields, fn_)
+        # built by the repository's own constructor (the instance dictionary has the order in which the constructor assigns the fields)
+        try:
+            o = TCLS(*[fields[f_] for f_ in FIELDS])
+        except Exception:
+            return absint.instance(ctx, CLS, fields, fn_)
+        if any(o.fields.get(f_) != fields[f_] for f_ in FIELDS):
+            return absint.instance(ctx, CLS, fields, fn_)
+        for k_, v_ in fields.items():
+            if k_ not in FIELDS:
+                o.fields[k_] = v_
         return o
     total = 0
     CMP = [k for k in ('__lt__', '__gt__', '__le__', '__ge__', '__eq__', '__ne__') if k in methods]
